@@ -1138,7 +1138,8 @@ class Mps(MatrixProduct):
             self.evolve_config.tdvp_cmf_midpoint = False
             self.evolve_config.tdvp_cmf_c_trapz = False
             self.evolve_config.adaptive = False
-            environ_mps = self.evolve(mpo, evolve_dt / 2)
+            # for imaginary time `evolve_dt` has been replaced by the real step length above
+            environ_mps = self.evolve(mpo, (-1j * evolve_dt if imag_time else evolve_dt) / 2)
             self.evolve_config = orig_config
         else:
             # mps at t=0 as environment
